@@ -444,8 +444,10 @@ Arguments a_has_ecb {A E}. Arguments a_cb {A E}. Arguments a_ecb {A E}.
 Definition apply_init {A E} (has_cb has_ecb : bool) : ares A E :=
   mk_ares false None false true has_cb has_ecb [] [].
 
-(* ApplyResult._set(i, (success, value)); the payload of a failure is never None here *)
+(* ApplyResult._set(i, (success, value)): the first outcome is kept (a result for a
+   job that is already resolved is dropped); the payload of a failure is never None here *)
 Definition apply_set {A E} (st : ares A E) (obj : item A E) : ares A E :=
+  if a_ready st then st else
   mk_ares true (Some obj) (a_accepted st)
           (if a_accepted st then false else a_incache st)
           (a_has_cb st) (a_has_ecb st)
